@@ -265,7 +265,7 @@ pub async fn run_case(c: Case) -> Result<CaseInfo, Failure> {
     Ok(info)
 }
 
-fn op_strategy() -> BoxedStrategy<Op> {
+pub fn op_strategy() -> BoxedStrategy<Op> {
     let kind = prop_oneof![3 => Just(SendKind::Qos0), 3 => Just(SendKind::Qos1), 2 => Just(SendKind::Qos2), 1 => Just(SendKind::Subscribe), 1 => Just(SendKind::Unsubscribe)];
     let kind2 = prop_oneof![2 => Just(SendKind::Qos0), 2 => Just(SendKind::Qos1), 1 => Just(SendKind::Qos2), 1 => Just(SendKind::Subscribe), 1 => Just(SendKind::Unsubscribe)];
     prop_oneof![
